@@ -35,6 +35,9 @@ CONSTANTS
     TrustAllSet,    \* {FALSE}: client trusts only "hk"; TRUE: known_hosts=None
     HashOmit,       \* sensitivity: hash inputs left out (normally {})
     PreferServer,   \* sensitivity: _choose_alg walks the server's list
+    ReportAtHostKey,  \* sensitivity: the caller waiting for the server's host
+                    \* key is answered when the key was decoded and accepted,
+                    \* before H is computed and the signature verified
     ServerSkipsBanner,  \* sensitivity: the server, too, ignores lines that
                     \* arrive before the peer's identification string
     SignBlind,      \* sensitivity: a received mpint is read as unsigned, so
@@ -146,7 +149,11 @@ Blank(x) == [st |-> "run", vown |-> IF x = "c" THEN "vc" ELSE "vs", vpeer |-> "n
              kiown |-> KI(x), kipeer |-> NoKI, ch |-> NoCh,
              grp |-> IF KexType = "dh" THEN "fixed" ELSE "none",
              ks |-> NoKS, extra |-> NoX, e |-> NoPub, f |-> NoPub,
-             k |-> NoK, h |-> NoH, sig |-> NoSig]
+             k |-> NoK, h |-> NoH, sig |-> NoSig,
+             \* rep: an API entry point (connect(), get_server_host_key())
+             \* has been told the host key / success; ver: H was computed
+             \* and the host signature verified
+             rep |-> FALSE, ver |-> FALSE]
 
 Init ==
     /\ cfg \in CfgPairs
@@ -241,8 +248,9 @@ ServerFinish(r) ==
 (* the client finishes: host key trusted, signature over its own H *)
 ClientFinish(r, sig) ==
     LET h == HashOf("c", r)
-    IN  IF ~Trusted(r.ks) \/ ~Verify(r.ks, h, sig) THEN Fail(r)
-        ELSE [r EXCEPT !.h = h, !.st = "nk",
+    IN  IF ~Trusted(r.ks) \/ ~Verify(r.ks, h, sig)
+        THEN [Fail(r) EXCEPT !.rep = ReportAtHostKey /\ Trusted(r.ks)]
+        ELSE [r EXCEPT !.h = h, !.st = "nk", !.rep = TRUE, !.ver = TRUE,
                        !.ch = [r.ch EXCEPT !.hostkey = r.ks.alg]]
 
 AfterKexinit(x, r, c) ==
@@ -420,6 +428,10 @@ FirstClientPref ==
             IN  \/ a = FirstCommon(cl, sl)
                 \/ f = "hostkey" /\ x = "c"
                 \/ f \in {"mac_cs", "mac_sc"} /\ a \in AEAD
+(* whatever an entry point reports as the server's host key, or as       *)
+(* success, is reported only after the exchange hash and the host key      *)
+(* signature verified                                                      *)
+ReportOnlyAfterVerify == side["c"].rep => side["c"].ver
 EditDetected ==
     (\E i \in 1..Len(edits) : ~Tolerated(edits[i])) =>
         ~Done("c") /\ ~Done("s")
